@@ -198,7 +198,7 @@ where
     where
         E: Entities,
     {
-        let component_len = entities.entities.component_len();
+        let component_len = entities.len();
 
         // SAFETY: `self.components`, together with `self.length`, define valid `Vec<C>` for each
         // component, and the components in `self.components` are in the same order as the
